@@ -521,7 +521,32 @@ Lemma nonvacuous_aligned :
   inside_box m [4; (-1)] /\ inside_box m [0; 2].
 Proof.
   intros r m s. split; [exact (proj1 nonvacuous_mesh)|]. split; [|split; [vm_compute; reflexivity|]].
-  - unfold aligned. simpl. repeat split; try reflexivity.
-    intros [|[|x]] Hx; simpl in *; try lia; (repeat split; try lia; vm_compute; reflexivity).
-  - split; (split; [reflexivity|]); intros [|[|x]] Hx; simpl in *; try lia; split; vm_compute; congruence.
+  - unfold aligned. split; [reflexivity|]. split; [reflexivity|]. split; [reflexivity|]. split; [reflexivity|].
+    intros y Hy. destruct y as [|[|y]]; simpl in Hy; try lia;
+      (split; [simpl; lia|]; split; [simpl; lia|]; split; vm_compute; reflexivity).
+  - split; (split; [reflexivity|]); intros y Hy; destruct y as [|[|y]]; simpl in Hy; try lia;
+      split; vm_compute; congruence.
+Qed.
+
+(* ---------- source field: every target cell receives the value of a source cell whose closed
+   extent contains the target cell centre ---------- *)
+Lemma source_field_cell {V} (t : mesh) (nv : nat) (src : fstate V) a (i : zidx) :
+  wf_mesh t -> wf_mesh (fmesh src) ->
+  length (pmin (reg (fmesh src))) = length (pmin (reg t)) ->
+  (forall x, (x < length (pmin (reg t)))%nat ->
+     nth x (pmin (reg (fmesh src))) 0 <= nth x (pmin (reg t)) 0 /\
+     nth x (pmax (reg t)) 0 <= nth x (pmax (reg (fmesh src))) 0) ->
+  as_array_field t nv src = OK a -> in_range (n t) i ->
+  exists j, a i = farr src j /\ length j = length (pmin (reg t)) /\
+    forall x, (x < length (pmin (reg t)))%nat ->
+      let s := fmesh src in
+      let lo := nth x (pmin (reg s)) 0 in let c := nth x (cell s) 0 in let q := nth x (centre t i) 0 in
+      (0 <= nth x j 0 < nth x (n s) 1)%Z /\
+      lo + inject_Z (nth x j 0%Z) * c <= q /\ q <= lo + (inject_Z (nth x j 0%Z) + 1) * c.
+Proof.
+  intros Ht Hs L Hin E Hr. destruct (field_spec_value t nv src a E) as [_ Ea].
+  pose proof (target_centres_in_source t (fmesh src) i Ht L Hin Hr) as Ib.
+  exists (nearest_idx (fmesh src) (centre t i)). split; [apply Ea|]. split.
+  - rewrite (nearest_idx_length _ Hs); [exact L|]. destruct Ib as [Lc _]. exact Lc.
+  - intros x Hx. rewrite <- L in Hx. apply (source_pick_contains_nd _ Hs _ Ib x Hx).
 Qed.
